@@ -16,10 +16,13 @@ def TreeResultS.proj : TreeResultS → TreeResult
   | .err => .err
   | .ood => .ood
 
-theorem treeS_fresh (x : Exts) (cfg : Cfg) (s : Str) : (treeS x cfg fresh s).proj = treeX x cfg s := by
-  unfold treeS treeX
-  simp only [fresh, prepareS_nil]
-  cases prepareX x cfg s with
+/-- on a state without carried tables and bookkeeping the stages after the preprocessors are `PipelineM.treeP`
+    (= the body of `treeX`, `PipelineM.treeX_eq`) -/
+theorem treePS_empty (x : Exts) (cfg : Cfg) {st : MdSt} (hl : st.log = []) (hf : st.fn = Footnotes.State.empty)
+    (prep : FootnotesTree.R (Str × List Str)) : (treePS x cfg st prep).proj = PipelineM.treeP x cfg prep := by
+  unfold treePS PipelineM.treeP
+  simp only [hl, hf]
+  cases prep with
   | oof => rfl
   | ood => rfl
   | ok p =>
@@ -66,6 +69,9 @@ theorem treeS_fresh (x : Exts) (cfg : Cfg) (s : Str) : (treeS x cfg fresh s).pro
               simp only []
               cases TreeProc.unescapeTree t <;> rfl
 
+theorem treeS_fresh (x : Exts) (cfg : Cfg) (s : Str) : (treeS x cfg fresh s).proj = treeX x cfg s :=
+  treePS_empty x cfg rfl rfl (prepareX x cfg s)
+
 /-- the answer of `convertS` on a state that is tracked, in terms of `treeS` -/
 theorem convertS_fst (x : Exts) (cfg : Cfg) (st : MdSt) (s : Str) (hv : st.valid = true) :
     (convertS x cfg st s).1 =
@@ -103,9 +109,9 @@ def TreeResultS.validOf : TreeResultS → Bool
   | .ok _ st => st.valid
   | _ => true
 
-theorem treeS_validOf (x : Exts) (cfg : Cfg) (st : MdSt) (s : Str) : (treeS x cfg st s).validOf = true := by
-  unfold treeS
-  generalize prepareS x cfg st.html s = pr
+theorem treePS_validOf (x : Exts) (cfg : Cfg) (st : MdSt) (pr : FootnotesTree.R (Str × List Str)) :
+    (treePS x cfg st pr).validOf = true := by
+  unfold treePS
   cases pr with
   | oof => rfl
   | ood => rfl
@@ -149,6 +155,9 @@ theorem treeS_validOf (x : Exts) (cfg : Cfg) (st : MdSt) (s : Str) : (treeS x cf
             | ok t =>
               simp only []
               cases TreeProc.unescapeTree t <;> rfl
+
+theorem treeS_validOf (x : Exts) (cfg : Cfg) (st : MdSt) (s : Str) : (treeS x cfg st s).validOf = true :=
+  treePS_validOf x cfg st _
 
 /-- a tree result `ok` carries a tracked state -/
 theorem treeS_ok_valid {x : Exts} {cfg : Cfg} {st st' : MdSt} {s : Str} {u : Node}
